@@ -389,3 +389,84 @@ func ZVUnmarshal(kind, params string, data []byte) (string, bool) {
 	}
 	return zvDump(m), true
 }
+
+// ZVWithoutBinders builds the ClientHello described by fields and runs the real marshalWithoutBinders
+// (it panics where the real code panics).
+func ZVWithoutBinders(fields string) []byte {
+	m := zvBuild("clientHello", zvParseFields(fields)).(*clientHelloMsg)
+	return append([]byte{}, m.marshalWithoutBinders()...)
+}
+
+// ZVUpdateBinders builds the ClientHello, optionally fills the `raw` cache by a first marshal, runs the real
+// updateBinders and returns what marshal returns afterwards (the patched cache, or a fresh encoding).
+func ZVUpdateBinders(fields string, cached bool, binders [][]byte) []byte {
+	m := zvBuild("clientHello", zvParseFields(fields)).(*clientHelloMsg)
+	if cached {
+		m.marshal()
+	}
+	m.updateBinders(binders)
+	return append([]byte{}, m.marshal()...)
+}
+
+// ZVRemarshal runs the real unmarshal on data and returns (1) what marshal returns on the parsed message (the cached
+// input, `raw`) and (2) what marshal produces for the same value without the cache (value rebuilt from its dump).
+func ZVRemarshal(kind, params string, data []byte) (cached, fresh []byte, ok bool) {
+	f := zvParseFields(params)
+	var m zvMsg
+	switch kind {
+	case "certificateRequest":
+		m = &certificateRequestMsg{hasSignatureAlgorithm: f.flag("hasSignatureAlgorithm")}
+	case "certificateVerify":
+		m = &certificateVerifyMsg{hasSignatureAlgorithm: f.flag("hasSignatureAlgorithm")}
+	default:
+		m = zvBuild(kind, zvFields{})
+	}
+	d := append([]byte{}, data...)
+	if !m.unmarshal(d) {
+		return nil, nil, false
+	}
+	cached = append([]byte{}, m.marshal()...)
+	fresh = zvBuild(kind, zvParseFields(zvDump(m))).marshal()
+	return cached, fresh, true
+}
+
+// ZVC30Consts dumps the handshake message type constants and the extension numbers the codecs of
+// handshake_messages.go use (T1).
+func ZVC30Consts() (names []string, vals []uint16) {
+	add := func(n string, v uint16) { names = append(names, n); vals = append(vals, v) }
+	add("typeHelloRequest", uint16(typeHelloRequest))
+	add("typeClientHello", uint16(typeClientHello))
+	add("typeServerHello", uint16(typeServerHello))
+	add("typeNewSessionTicket", uint16(typeNewSessionTicket))
+	add("typeEndOfEarlyData", uint16(typeEndOfEarlyData))
+	add("typeEncryptedExtensions", uint16(typeEncryptedExtensions))
+	add("typeCertificate", uint16(typeCertificate))
+	add("typeServerKeyExchange", uint16(typeServerKeyExchange))
+	add("typeCertificateRequest", uint16(typeCertificateRequest))
+	add("typeServerHelloDone", uint16(typeServerHelloDone))
+	add("typeCertificateVerify", uint16(typeCertificateVerify))
+	add("typeClientKeyExchange", uint16(typeClientKeyExchange))
+	add("typeFinished", uint16(typeFinished))
+	add("typeCertificateStatus", uint16(typeCertificateStatus))
+	add("typeKeyUpdate", uint16(typeKeyUpdate))
+	add("extensionServerName", extensionServerName)
+	add("extensionStatusRequest", extensionStatusRequest)
+	add("extensionSupportedCurves", extensionSupportedCurves)
+	add("extensionSupportedPoints", extensionSupportedPoints)
+	add("extensionSignatureAlgorithms", extensionSignatureAlgorithms)
+	add("extensionALPN", extensionALPN)
+	add("extensionSCT", extensionSCT)
+	add("extensionExtendedMasterSecret", extensionExtendedMasterSecret)
+	add("extensionSessionTicket", extensionSessionTicket)
+	add("extensionPreSharedKey", extensionPreSharedKey)
+	add("extensionEarlyData", extensionEarlyData)
+	add("extensionSupportedVersions", extensionSupportedVersions)
+	add("extensionCookie", extensionCookie)
+	add("extensionPSKModes", extensionPSKModes)
+	add("extensionCertificateAuthorities", extensionCertificateAuthorities)
+	add("extensionSignatureAlgorithmsCert", extensionSignatureAlgorithmsCert)
+	add("extensionKeyShare", extensionKeyShare)
+	add("extensionRenegotiationInfo", extensionRenegotiationInfo)
+	add("extensionExtendedRandom", extensionExtendedRandom)
+	return
+}
